@@ -120,7 +120,7 @@ pub fn c07_election() {
                 else if k == 1 { if vsym::resume(links[idx].server_job.as_ref().unwrap()) { links[idx].server = Some(vsym::take(links[idx].server_job.take().unwrap())); } }
                 else { if vsym::resume(links[idx].conn_job.as_ref().unwrap()) { links[idx].conn = Some(vsym::take(links[idx].conn_job.take().unwrap())); } }
             }
-            if vsym::param("trace", 0) == 1 { vsym::tag(if ticked { "tick" } else { "quiet" }); }
+            if vsym::param("trace", 0) >= 1 { vsym::tag(if ticked { "tick" } else { "quiet" }); }
             if !ticked { quiet = true; break; }
             steps += 1; continue;
         }
@@ -138,6 +138,7 @@ pub fn c07_election() {
         else if kind == 9 { if vsym::resume(&client_jobs[idx]) { client_done[idx] = true; } started += 1; }
         else if kind == 0 {
             let line = links[idx].out_rx.try_next().unwrap().unwrap();
+            if vsym::param("trace", 0) == 2 { vsym::tag(&[&nodes[links[idx].from].name, ">", &nodes[links[idx].to].name, ": ", line.trim(), " [roles ", &(nodes[0].dbs.get_role() as usize).to_string(), &(nodes[1].dbs.get_role() as usize).to_string(), "]"].concat()); }
             let mut server = links[idx].server.take().unwrap();
             let dbs = nodes[links[idx].to].dbs.clone();
             let h = vsym::spawn_suspended(move || {
@@ -148,6 +149,7 @@ pub fn c07_election() {
         } else if kind == 1 {
             let line = links[idx].server_rx.try_next().unwrap().unwrap();
             let message = line.trim().to_string();
+            if vsym::param("trace", 0) == 2 && message != "ok" { vsym::tag(&[&nodes[links[idx].to].name, " answers ", &nodes[links[idx].from].name, ": ", &message].concat()); }
             if message != "ok" {
                 let mut conn = links[idx].conn.take().unwrap();
                 let dbs = nodes[links[idx].from].dbs.clone();
@@ -155,7 +157,11 @@ pub fn c07_election() {
                 if vsym::resume(&h) { links[idx].conn = Some(vsym::take(h)); } else { links[idx].conn_job = Some(h); }
             }
         } else if kind == 2 { poll_once(&mut nodes[idx].repl); }
-        else { supervisor_step(&mut nodes[idx]); }
+        else {
+            if vsym::param("trace", 0) == 2 { vsym::tag(&["supervisor ", &nodes[idx].name].concat()); }
+            supervisor_step(&mut nodes[idx]);
+        }
+        if vsym::param("trace", 0) == 2 { let mut rs = String::from("  roles"); let mut q = 0; while q < nodes.len() { rs.push_str(" "); rs.push_str(&(nodes[q].dbs.get_role() as usize).to_string()); q += 1; } vsym::tag(&rs); }
         steps += 1;
     }
     vsym::check("election.terminates", quiet);
